@@ -131,9 +131,20 @@ def needs_escape(name):
 
 def render_v2(ast, variant=0):
     """variant bits: 1 -> '@' prefixes, 2 -> redundant parentheses, 4 -> extra spaces,
-    8 -> leading and trailing blanks, 16 -> every operand and every sub-expression parenthesised."""
+    8 -> leading and trailing blanks, 16 -> every operand and every sub-expression parenthesised,
+    32 -> the operands of the top-level operator parenthesised (not the whole text)."""
     if variant & 8:
         return u" " + render_v2(ast, variant & ~8) + u"  "
+    if variant & 32:
+        # every operand of the top-level operator is parenthesised, the text as a whole is not:
+        # "(a and b) or (c)" starts with "(" and ends with ")" without being one group
+        v = variant & ~32
+        spc = u"  " if variant & 4 else u" "
+        if ast[0] in ("and", "or"):
+            return (spc + ast[0] + spc).join(u"(" + render_v2(y, v) + u")" for y in ast[1:])
+        if ast[0] == "not":
+            return u"not" + spc + u"(" + render_v2(ast[1], v) + u")"
+        return render_v2(ast, v)
     if variant & 16:
         return _render_v2_full(ast, variant)
     at = u"@" if variant & 1 else u""
